@@ -16,16 +16,16 @@ theorem startRecv2_K {a : ACfg} {s : St} (ib : InvB2 a s) (is : InvS a s) (u : N
     obtain ⟨⟨hbusy, hvres⟩, hV⟩ := hg
     split
     · refine ⟨InvB2.of_core (s := s.emit2 (.ret u .state)) rfl (ib.emit2 rfl), ?_⟩
-      obtain ⟨nb, we, wv, ty, wq, d2, cc, hc', can, v2, dn, vn, da, vs⟩ := is
+      obtain ⟨nb, we, wv, ty, wq, d2, cc, hc', can, v2, dn, vn, da, vs, dnf, ip, ds, hs⟩ := is
       ksolve
     · split
       · rename_i v q hq
         refine ⟨InvB2.of_core (s := ({ s with q2 := q, gone2 := s.gone2 ++ [(v, true)] } : St).emit2 (.ret u (.msg v))) rfl (InvB2.emit2 rfl (InvB2.of_core (s' := { s with q2 := q, gone2 := s.gone2 ++ [(v, true)] }) (s := s) rfl ib)), ?_⟩
-        obtain ⟨nb, we, wv, ty, wq, d2, cc, hc', can, v2, dn, vn, da, vs⟩ := is
+        obtain ⟨nb, we, wv, ty, wq, d2, cc, hc', can, v2, dn, vn, da, vs, dnf, ip, ds, hs⟩ := is
         ksolve
       · split
         · refine ⟨InvB2.of_core (s := s.emit2 (.ret u .eoq)) rfl (ib.emit2 rfl), ?_⟩
-          obtain ⟨nb, we, wv, ty, wq, d2, cc, hc', can, v2, dn, vn, da, vs⟩ := is
+          obtain ⟨nb, we, wv, ty, wq, d2, cc, hc', can, v2, dn, vn, da, vs, dnf, ip, ds, hs⟩ := is
           ksolve
         · rename_i hq
           refine ⟨InvB2.of_core (s := s) rfl ib, ?_⟩
@@ -33,13 +33,13 @@ theorem startRecv2_K {a : ACfg} {s : St} (ib : InvB2 a s) (is : InvS a s) (u : N
             cases h : s.cpc with
             | idle => rfl
             | _ => have := ib.q hb (by rw [h]; simp); rw [this] at hq; contradiction
-          obtain ⟨nb, we, wv, ty, wq, d2, cc, hc', can, v2, dn, vn, da, vs⟩ := is
+          obtain ⟨nb, we, wv, ty, wq, d2, cc, hc', can, v2, dn, vn, da, vs, dnf, ip, ds, hs⟩ := is
           ksolve
 
 theorem cancel2_user_K {a : ACfg} {s : St} (ib : InvB2 a s) (is : InvS a s) (u : Nat) :
     InvB2 a (s.cancel2 (.W u)) ∧ InvS a (s.cancel2 (.W u)) := by
   refine ⟨InvB2.of_core (bcore2_cancel2 s _) ib, ?_⟩
-  obtain ⟨nb, we, wv, ty, wq, d2, cc, hc', can, v2, dn, vn, da, vs⟩ := is
+  obtain ⟨nb, we, wv, ty, wq, d2, cc, hc', can, v2, dn, vn, da, vs, dnf, ip, ds, hs⟩ := is
   unfold St.cancel2
   split
   · ksolve
@@ -48,8 +48,16 @@ theorem cancel2_user_K {a : ACfg} {s : St} (ib : InvB2 a s) (is : InvS a s) (u :
   · split
     · ksolve
     · ksolve
-    · exact ⟨nb, we, wv, ty, wq, d2, cc, hc', can, v2, dn, vn, da, vs⟩
-  · exact ⟨nb, we, wv, ty, wq, d2, cc, hc', can, v2, dn, vn, da, vs⟩
+    · exact ⟨nb, we, wv, ty, wq, d2, cc, hc', can, v2, dn, vn, da, vs, dnf, ip, ds, hs⟩
+  · exact ⟨nb, we, wv, ty, wq, d2, cc, hc', can, v2, dn, vn, da, vs, dnf, ip, ds, hs⟩
+
+theorem closeOnD2_Y {a : ACfg} {s : St} (i : InvY a s) (p : AProg) : InvY a (closeOnD2 a s p) := by
+  unfold closeOnD2
+  simp only
+  split
+  · exact i.frame (by simp) (by simp [St.setA, St.setP])
+  · exact passInner_Y (s := (({ s with evt := some false } : St).setA .D2 .inSoup).setP .D2 p) (i.frame rfl rfl) _
+      (fun _ _ h => by cases h)
 
 theorem dispHandle2_Y {a : ACfg} {s : St} (i : InvY a s) (v : Nat) : InvY a (dispHandle2 a s v) := by
   unfold dispHandle2
@@ -59,7 +67,7 @@ theorem dispHandle2_Y {a : ACfg} {s : St} (i : InvY a s) (v : Nat) : InvY a (dis
   · exact i.frame rfl rfl
   · split
     · exact i.frame rfl rfl
-    · exact startClose_Y i _ _
+    · exact closeOnD2_Y i _
   · exact i.frame rfl rfl
   · exact i.frame rfl rfl
 
@@ -68,7 +76,7 @@ theorem handlerDone_Y {a : ACfg} {s : St} (i : InvY a s) (t : ATid) (v : Nat) : 
   split
   · split
     · exact i.frame rfl rfl
-    · exact startClose_Y i _ _
+    · exact closeOnD2_Y i _
   · exact i.frame rfl rfl
 
 theorem stepDisp2_Y {a : ACfg} {s : St} (i : InvY a s) : InvY a (stepDisp2 a s) := by
@@ -90,11 +98,9 @@ theorem stepRun2_Y {a : ACfg} {s : St} (i : InvY a s) (t : ATid) : InvY a (stepR
   split
   · split
     · exact i0.frame rfl rfl
-    · exact i0.frame rfl rfl
     · split
       · exact i0.frame rfl rfl
-      · exact startClose_Y i0 _ _
-    · exact i0.frame rfl rfl
+      · exact closeOnD2_Y i0 _
     · split <;> exact i0.frame rfl rfl
     · exact i0.frame rfl rfl
     · exact i0.frame rfl rfl
@@ -105,9 +111,7 @@ theorem stepRun2_Y {a : ACfg} {s : St} (i : InvY a s) (t : ATid) : InvY a (stepR
     · split
       · exact handlerDone_Y i0 _ _
       · exact i0.frame rfl rfl
-    · exact i0.frame rfl rfl
     · split <;> exact i0.frame rfl rfl
-    · exact i0.frame rfl rfl
     · split
       · exact i0.frame rfl rfl
       · split
@@ -142,12 +146,18 @@ theorem step_Inv {a : ACfg} {s : St} (i : Inv a s) (ev : Ev) : Inv a (step a s e
   refine ⟨?_, ?_, ?_, step_InvF iF ev⟩
   · -- InvY
     cases ev with
-    | inner e => exact stepInner_Y iy e
+    | inner e =>
+      simp only [step]
+      split
+      · exact iy
+      · exact stepInner_Y iy e
     | run t =>
       simp only [step]
       split
       · exact stepRun2_Y iy t
-      · exact iy
+      · split
+        · exact stepInner_Y (s := { s with imm2 := false }) (iy.frame rfl rfl) _
+        · exact iy
     | appClose u =>
       simp only [step]
       split
@@ -163,12 +173,19 @@ theorem step_Inv {a : ACfg} {s : St} (i : Inv a s) (ev : Ev) : Inv a (step a s e
     | appCancel u => exact iy.frame (by simp [step]) (by simp [step])
   · -- InvB2
     cases ev with
-    | inner e => exact (stepInner_K iy ib is e).1
+    | inner e =>
+      simp only [step]
+      split
+      · exact ib
+      · exact (stepInner_K iy ib is e).1
     | run t =>
       simp only [step]
       split
-      · exact (stepRun2_K ib is t).1
-      · exact ib
+      · exact (stepRun2_K iy ib is t).1
+      · split
+        · exact (stepInner_K (s := { s with imm2 := false }) (iy.frame rfl rfl) (InvB2.of_core (s := s) rfl ib)
+            (InvS.of_core (s := s) rfl is) _).1
+        · exact ib
     | appClose u =>
       simp only [step]
       split
@@ -179,7 +196,7 @@ theorem step_Inv {a : ACfg} {s : St} (i : Inv a s) (ev : Ev) : Inv a (step a s e
         · exact InvB2.of_core (s := s.emit2 (.closeRet (.user u) .ok)) rfl (ib.emit2 rfl)
         · rename_i hg2
           simp only [Bool.or_eq_true, not_or, Bool.not_eq_true, Option.isSome_eq_false_iff, Option.isNone_iff_eq_none] at hg2
-          exact (startClose_K ib is _ _ hg2.1 hg2.2 (Or.inr (Or.inr ⟨u, rfl, hg.1, rfl, hg.2⟩))).1
+          exact (startClose_K ib is _ _ hg2.1 hg2.2 ⟨u, rfl, hg.1, rfl, hg.2⟩).1
     | appRecv u =>
       simp only [step]
       split
@@ -190,12 +207,19 @@ theorem step_Inv {a : ACfg} {s : St} (i : Inv a s) (ev : Ev) : Inv a (step a s e
     | appCancel u => exact (cancel2_user_K ib is u).1
   · -- InvS
     cases ev with
-    | inner e => exact (stepInner_K iy ib is e).2
+    | inner e =>
+      simp only [step]
+      split
+      · exact is
+      · exact (stepInner_K iy ib is e).2
     | run t =>
       simp only [step]
       split
-      · exact (stepRun2_K ib is t).2
-      · exact is
+      · exact (stepRun2_K iy ib is t).2
+      · split
+        · exact (stepInner_K (s := { s with imm2 := false }) (iy.frame rfl rfl) (InvB2.of_core (s := s) rfl ib)
+            (InvS.of_core (s := s) rfl is) _).2
+        · exact is
     | appClose u =>
       simp only [step]
       split
@@ -203,11 +227,11 @@ theorem step_Inv {a : ACfg} {s : St} (i : Inv a s) (ev : Ev) : Inv a (step a s e
       · rename_i hg
         simp only [bne_iff_ne, ne_eq, Bool.or_eq_true, not_or, Decidable.not_not, Bool.not_eq_true', Bool.not_eq_false] at hg
         split
-        · obtain ⟨nb, we, wv, ty, wq, d2, cc, hc', can, v2, dn, vn, da, vs⟩ := is
+        · obtain ⟨nb, we, wv, ty, wq, d2, cc, hc', can, v2, dn, vn, da, vs, dnf, ip, ds, hs⟩ := is
           ksolve
         · rename_i hg2
           simp only [Bool.or_eq_true, not_or, Bool.not_eq_true, Option.isSome_eq_false_iff, Option.isNone_iff_eq_none] at hg2
-          exact (startClose_K ib is _ _ hg2.1 hg2.2 (Or.inr (Or.inr ⟨u, rfl, hg.1, rfl, hg.2⟩))).2
+          exact (startClose_K ib is _ _ hg2.1 hg2.2 ⟨u, rfl, hg.1, rfl, hg.2⟩).2
     | appRecv u =>
       simp only [step]
       split
@@ -223,7 +247,7 @@ theorem Inv.init (a : ACfg) : Inv a {} := by
   · intro h; cases h
   · intro h; cases h
   · refine ⟨?_, ?_, ?_, ?_, ?_, ?_, ?_, ?_, ?_, ?_, ?_, ?_, rfl⟩ <;> simp [midStage, lateStage]
-  · refine ⟨?_, ?_, ?_, ?_, ?_, ?_, ?_, ?_, ?_, ?_, ?_, ?_, ?_, ?_⟩ <;> simp [lateStage, alive2]
+  · refine ⟨?_, ?_, ?_, ?_, ?_, ?_, ?_, ?_, ?_, ?_, ?_, ?_, ?_, ?_, ?_, ?_, ?_, ?_⟩ <;> simp [lateStage, alive2]
 
 /-- **All invariants hold in every reachable state of the product machine.** -/
 theorem runEvs_Inv (a : ACfg) (evs : List Ev) : Inv a (runEvs a {} evs) := by
